@@ -224,11 +224,12 @@ def replay_outcome(report, N, K, fault_sel, die, out, rng, which, batch):
     items = make_items(K, faults, rng)
     assign = [w - 1 for w in out["assign"]]
     sseed = rng.choice([None, rng.randrange(10**6), rng.randrange(10**6)])
+    late = bool(die) and rng.random() < 0.5
     old_init = fakemp.Sched.__init__
 
     def init(self, *a, **k):
         old_init(self, *a, **k)
-        padd_cb.CTL = (self, (die[0] - 1, die[1]) if die else None, {})
+        padd_cb.CTL = (self, ((die[0] - 1, die[1], "late") if late else (die[0] - 1, die[1])) if die else None, {})
     fakemp.Sched.__init__ = init
     try:
         outcome, res, sched = fakemp.run_parallel_add(
@@ -242,7 +243,7 @@ def replay_outcome(report, N, K, fault_sel, die, out, rng, which, batch):
         fakemp.Sched.__init__ = old_init
         padd_cb.CTL = None
     scen = {"N": N, "K": K, "faults": {str(k): v for k, v in faults.items() if v != "ok"}, "die": die,
-            "assign": out["assign"], "sketches": sorted(which), "scheduler_seed": sseed}
+            "assign": out["assign"], "sketches": sorted(which), "scheduler_seed": sseed, "late_death": late}
     report.count_action("replay:" + out["st"])
 
     def bad(msg):
